@@ -13,6 +13,7 @@ import (
 	"fmt"
 	"go/ast"
 	"go/parser"
+	"go/printer"
 	"go/token"
 	"os"
 	"path/filepath"
@@ -629,6 +630,10 @@ func genFacts(repo string) []byte {
 	b.WriteString(genWriteLockSeq(files["db.go"]) + "\n")
 	b.WriteString(genSnapshotSeq(files["db.go"], "Export", "exportSeq") + "\n")
 	b.WriteString(genSnapshotSeq(files["db.go"], "WriteSnapshotTo", "snapshotSeq") + "\n")
+	srv := parseFile(filepath.Join(repo, "http/server.go"))
+	b.WriteString(genCondActions(srv, "Server", "streamDB", "streamDBConds") + "\n")
+	b.WriteString(genCondActions(srv, "Server", "streamLTX", "streamLTXConds") + "\n")
+	b.WriteString(genCondActions(files["store.go"], "Store", "processLTXStreamFrame", "processFrameConds") + "\n")
 	b.WriteString("end LiteFSVerif.Gen.Facts\n")
 	return []byte(b.String())
 }
@@ -786,5 +791,103 @@ func genSnapshotSeq(db *ast.File, fn, lean string) string {
 	fmt.Fprintf(&b, "/-- guard calls and state captures of `%s` in source order -/\n", fn)
 	fmt.Fprintf(&b, "def %s : List (String × String) := [%s]\n", lean, strings.Join(calls, ", "))
 	fmt.Fprintf(&b, "def %sSelfCheck : Bool := %v\n", lean, selfCheck)
+	return b.String()
+}
+
+// genCondActions lists, in source order, every `if` condition of a function that is not plain
+// error plumbing, with what its body does: clear (resets the client position), snapshot
+// (returns streamLTXSnapshot), return-nil, error (returns an error), skip (verifies and discards),
+// other.  Composite literals and calls are printed as source text.
+func genCondActions(f *ast.File, recv, fn, lean string) string {
+	fd := findFunc(f, recv, fn)
+	var b strings.Builder
+	if fd == nil {
+		fmt.Fprintf(&b, "def %s : List (String × String) := []\n", lean)
+		return b.String()
+	}
+	src := func(n ast.Node) string {
+		var sb strings.Builder
+		_ = printer.Fprint(&sb, fset, n)
+		return strings.Join(strings.Fields(sb.String()), " ")
+	}
+	classify := func(body *ast.BlockStmt) string {
+		kind := "other"
+		ast.Inspect(body, func(n ast.Node) bool {
+			switch x := n.(type) {
+			case *ast.AssignStmt:
+				if len(x.Lhs) == 1 && len(x.Rhs) == 1 && src(x.Lhs[0]) == "clientPos" && src(x.Rhs[0]) == "ltx.Pos{}" {
+					kind = "clear"
+				}
+			case *ast.ReturnStmt:
+				if kind != "other" {
+					return true
+				}
+				txt := src(x)
+				switch {
+				case strings.Contains(txt, "streamLTXSnapshot"):
+					kind = "snapshot"
+				case txt == "return nil":
+					kind = "return-nil"
+				case strings.Contains(txt, "fmt.Errorf") || strings.Contains(txt, "err"):
+					kind = "error"
+				}
+			case *ast.CallExpr:
+				if strings.Contains(src(x.Fun), "io.Discard") || (len(x.Args) > 0 && src(x.Args[0]) == "io.Discard") {
+					kind = "skip"
+				}
+			}
+			return true
+		})
+		return kind
+	}
+	var out []string
+	var walk func(list []ast.Stmt)
+	walkIf := func(x *ast.IfStmt) {}
+	noteAssign := func(x *ast.AssignStmt) {
+		if len(x.Lhs) == 1 && src(x.Lhs[0]) == "expectedPos" {
+			out = append(out, fmt.Sprintf("(%q, %q)", "expectedPos", src(x.Rhs[0])))
+		}
+		for _, r := range x.Rhs {
+			if c, ok := r.(*ast.CallExpr); ok {
+				t := src(c)
+				if strings.Contains(t, "streamLTX(") || strings.Contains(t, "OpenLTXFile(") || strings.Contains(t, "ApplyLTXNoLock(") {
+					out = append(out, fmt.Sprintf("(%q, %q)", "call", t))
+				}
+			}
+		}
+	}
+	walkIf = func(x *ast.IfStmt) {
+		if a, ok := x.Init.(*ast.AssignStmt); ok {
+			noteAssign(a)
+		}
+		cond := src(x.Cond)
+		if cond != "err != nil" && !strings.HasPrefix(cond, "err == ") && !strings.Contains(cond, "err != nil") {
+			out = append(out, fmt.Sprintf("(%q, %q)", cond, classify(x.Body)))
+		}
+		walk(x.Body.List)
+		switch e := x.Else.(type) {
+		case *ast.IfStmt:
+			walkIf(e)
+		case *ast.BlockStmt:
+			walk(e.List)
+		}
+	}
+	walk = func(list []ast.Stmt) {
+		for _, st := range list {
+			switch x := st.(type) {
+			case *ast.IfStmt:
+				walkIf(x)
+			case *ast.ForStmt:
+				walk(x.Body.List)
+			case *ast.BlockStmt:
+				walk(x.List)
+			case *ast.AssignStmt:
+				noteAssign(x)
+			}
+		}
+	}
+	walk(fd.Body.List)
+	fmt.Fprintf(&b, "/-- conditions of `%s` in source order with the action of each branch -/\n", fn)
+	fmt.Fprintf(&b, "def %s : List (String × String) := [\n  %s\n]\n", lean, strings.Join(out, ",\n  "))
 	return b.String()
 }
